@@ -12,7 +12,7 @@ Open Scope string_scope.
 Ltac2 Set Whnf.is_blocked as old := fun c =>
   Ltac2.Bool.or (old c) (Ltac2.List.exist (Ltac2.Constr.equal c)
     ['@Epoch_get_date; '@Epoch_is_leap; '@Epoch_get_doy; '@Angle_reduce_deg; '@Angle___init__;
-     '@Angle_to_positive; '@Epoch___init__]).
+     '@Angle_to_positive; '@Epoch___init__; '@ifv]).
 Ltac lit_norm := repeat match goal with |- context [Rlit ?m ?e] =>
   let r := eval cbv -[IZR Rdiv Rmult Rinv Rplus Ropp] in (Rlit m e) in change (Rlit m e) with r end.
 
@@ -124,7 +124,7 @@ Definition f_Q (xt : R) : R :=
 Definition C : R := Rlit 953 (-3).
 
 (* deviation from the linear mean instant J0 + B k: the polynomial part Q(T) + the periodic terms *)
-Lemma dev_split k : v_jde_2 k - (J0 + B * k) = f_Q (v_t_1 k) + (((((v_corr_2 k) + (v_corr_2 k)2) + (v_w_1 k)))).
+Lemma dev_split k : v_jde_2 k - (J0 + B * k) = f_Q (v_t_1 k) + (((((v_corr_2 k) + (v_corr2_1 k)) + (v_w_1 k)))).
 Proof. unfold v_jde_2, v_jde_1, f_jde_2, f_jde_1, f_Q, J0, B. ring. Qed.
 Lemma dev_bound k : -41 <= k / cc <= 21 -> Rabs (v_jde_2 k - (J0 + B * k)) <= C.
 Proof.
